@@ -310,7 +310,7 @@ def gen_cases(ctx):
             add(toks, sample_paths(toks, 3, 5), half=True)
         ctx.bump("glob_tokens", 5, n5 * 2)
     # random globs over the wider alphabet (incl. syntax outside the theorem fragment), 1-7 tokens
-    nr = ctx.pick(6000, 120000)
+    nr = ctx.pick(6000, 80000)
     for _ in range(nr):
         n = 1 + rng.below(7)
         toks = [rng.choice(EXTRA_TOKENS) if rng.chance(2, 5) else rng.choice(TOKENS) for _ in range(n)]
